@@ -62,6 +62,14 @@ class _StrKey(str):
     """A str subclass (as StrEnum members or typed ids are)."""
 
 
+def idrule(case):
+    """The id rule of the case's tree, stated by the harness: the default, or - for a tree class that overrides the
+    documented extension point `calc_data_id()` as a *method* - the subclass's rule."""
+    if case.get("sub"):
+        return lambda data: hash(("s", data))
+    return hash
+
+
 def build(case):
     from nutree import Tree
 
@@ -72,7 +80,16 @@ def build(case):
     # a tree with an id hook that computes the default rule: lookups must behave exactly the same
     typed = bool(case.get("typed"))
     kind = (lambda i: "kab"[i % 3]) if typed else None  # siblings of interleaved kinds: searches are kind-blind
-    if typed:
+    rule = idrule(case)
+    if case.get("sub"):
+        from nutree.typed_tree import TypedTree
+
+        class _Sub(TypedTree if typed else Tree):
+            def calc_data_id(self, data):
+                return hash(("s", data))
+
+        t = _Sub("t")
+    elif typed:
         from nutree.typed_tree import TypedTree
 
         t = gen.ext_classes()["XTypedTree"]("t") if case.get("ext") else TypedTree("t")
@@ -87,7 +104,7 @@ def build(case):
         nodes = gen.build(t, f, lambda i: labs[i], kind=kind)
     elif fl == "int":
         # -1 and 2**61+5 are ints whose default id differs from the value (hash(-1) == -2, hash(2**61+5) == 6)
-        labs = gen.clone_labeling(rng, f, [1, 2, 3, 4, 5, -1, 2**61 + 5]) or list(range(100, 100 + n))
+        labs = gen.clone_labeling(rng, f, [1, 2, 3, 4, 5, -1, 2**61 + 5, 0]) or list(range(100, 100 + n))
         nids = rng.sample(range(1, 12), min(n, 11)) + list(range(50, 50 + n))
         nodes = []
         # explicit node ids that may coincide with other nodes' data (= default data_id for ints)
@@ -113,14 +130,14 @@ def build(case):
             for _ in range(50):
                 lab = rng.choice(STR_ALPH)
                 did = rng.choice([None, None, rng.choice(STR_ALPH), rng.randint(1, 5)])
-                eff = hash(lab) if did is None else did
+                eff = rule(lab) if did is None else did
                 if eff not in used:
                     break
             else:
-                lab, did, eff = f"n{i}", None, hash(f"n{i}")
+                lab, did, eff = f"n{i}", None, rule(f"n{i}")
             labs.append(lab)
             ids.append(eff)
-        expl = [None if ids[i] == hash(labs[i]) else ids[i] for i in range(n)]
+        expl = [None if ids[i] == rule(labs[i]) else ids[i] for i in range(n)]
         nodes = gen.build(t, f, lambda i: labs[i], data_id=lambda i: expl[i], kind=kind)
     if case.get("prelude"):
         nodes = prelude(t, nodes, rng)
@@ -178,6 +195,7 @@ def run_case(case, res):
     from nutree import AmbiguousMatchError
 
     t, nodes = build(case)
+    rule = idrule(case)
     f = gen.decode(case["f"])
     n = len(nodes)
     bad = []
@@ -271,14 +289,14 @@ def run_case(case, res):
                             bad.append(f"find_all(data_id={did!r}, max_results={k}) from {'tree' if start is None else 'node'}: got {got!r}, matches are {S!r}")
             # ---- lookups by data object, aliases `find` ------------------------------------
             for x in order[:8]:
-                want = [y for y in order if y.data_id == hash(x.data)]  # default id rule of this tree
+                want = [y for y in order if y.data_id == rule(x.data)]  # id rule of this tree
                 for nm, fn in (("tree.find_all(data)", lambda: t.find_all(x.data)),):
                     got = attempt(fn)
                     res.count("data_queries")
                     if not isinstance(got, list) or sorted(ident(got)) != sorted(ident(want)):
                         bad.append(f"{nm} for {x.data!r}: got {got!r}, nodes with that id: {want!r}")
                 for nm, fn in (("tree.find_first(data)", lambda: t.find_first(x.data)), ("tree.find(data)", lambda: t.find(x.data)),
-                               ("tree.find(data_id=)", lambda: t.find(data_id=hash(x.data)))):
+                               ("tree.find(data_id=)", lambda: t.find(data_id=rule(x.data)))):
                     got = attempt(fn)
                     res.count("data_queries")
                     if (got is None) != (not want) or (got is not None and not any(got is w for w in want)):
@@ -288,8 +306,8 @@ def run_case(case, res):
                     bad.append(f"tree.find(node_id={x.node_id}) -> {got!r}")
                 for start in order[:4]:
                     sub = desc(start)
-                    w2 = [y for y in sub if y.data_id == hash(x.data)]
-                    if x.data or isinstance(x.data, str) and x.data:
+                    w2 = [y for y in sub if y.data_id == rule(x.data)]
+                    if True:  # (falsy data objects - 0 - are data like any other)
                         got = attempt(lambda: start.find_all(x.data))
                         res.count("data_queries")
                         if not isinstance(got, list) or ident(got) != ident(w2):
@@ -334,7 +352,7 @@ def run_case(case, res):
                     res.count("id_searches_before_index_access")
                 by_nid = [x for x in order if isinstance(key, int) and x.node_id == key]
                 by_did = [x for x in order if isinstance(key, (int, str)) and x.data_id == key]
-                by_data = [x for x in order if x.data_id == hash(key)]
+                by_data = [x for x in order if x.data_id == rule(key)]
                 if by_nid:
                     exp = by_nid[0] if len(by_nid) == 1 else ("EXC", "AmbiguousMatchError")
                     cls = "node_id"
@@ -511,6 +529,8 @@ def run_shard(spec, res):
                         run_case({"f": gen.code(f), "flavour": fl, "seed": seed, "prelude": True}, res)
                     if n >= 2 and k % 2:
                         run_case({"f": gen.code(f), "flavour": fl, "seed": seed, "hook": True}, res)
+                    if n >= 2 and k % 3 == 1:
+                        run_case({"f": gen.code(f), "flavour": fl, "seed": seed, "sub": True, "typed": k % 2 == 0, "prelude": k % 4 == 2}, res)
                     if n >= 2 and k % 2 == 0:
                         run_case({"f": gen.code(f), "flavour": fl, "seed": seed, "ext": True, "prelude": k % 4 == 0}, res)
                     if n >= 2 and k % 3 == 0:
@@ -524,7 +544,7 @@ def run_shard(spec, res):
         for j in range(spec["count"]):
             f = gen.random_forest(rng, rng.randint(6, 16))
             run_case({"f": gen.code(f), "flavour": rng.choice(FLAVOURS), "seed": rng.randrange(10**6), "prelude": rng.random() < (0.9 if spec.get("pyopt") else 0.5),
-                      "hook": rng.random() < 0.3, "ext": rng.random() < 0.3, "typed": rng.random() < 0.25, **({"pyopt": True} if spec.get("pyopt") else {})}, res)
+                      "hook": rng.random() < 0.3, "ext": rng.random() < 0.3, "typed": rng.random() < 0.25, "sub": rng.random() < 0.2, **({"pyopt": True} if spec.get("pyopt") else {})}, res)
             if res.expired():
                 break
 
